@@ -37,7 +37,12 @@ class Ctx:
         self.prog = prog
         self.an = Analyzer(prog)
         self.eff = Effects(self.an)
+        from .values import Values
+
+        self.vals = Values(self.an)
+        self._owner: Optional[Dict[int, FuncInfo]] = None
         self.hier = self.an.hier
+        self.spliced = self.an.hide_spliced_helpers()
         self.rep = rep
         self.tier = tier
         self._lemmas: Dict[str, Tuple[bool, str]] = {}
@@ -45,6 +50,8 @@ class Ctx:
         self.pool_classes: List[ClassInfo] = prog.subclasses(self.base)
         rep.analysed["modules"] = sorted(m.relpath for m in prog.modules.values())
         rep.analysed["functions"] = len(prog.functions)
+        if self.spliced:
+            rep.analysed["helpers_spliced_into_callers"] = sorted(self.spliced)
         rep.analysed["classes"] = len(prog.classes)
         rep.analysed["pool_classes"] = [c.qual for c in self.pool_classes]
 
@@ -62,9 +69,19 @@ class Ctx:
     def pool_setters(self, name: str) -> List[FuncInfo]:
         return [c.setters[name] for c in self.pool_classes if name in c.setters]
 
-    def in_pool(self, f: FuncInfo) -> bool:
+    def in_pool(self, f: FuncInfo, _seen: Optional[Set[str]] = None) -> bool:
         c = self.prog.enclosing_class(f)
-        return c is not None and c in self.pool_classes
+        if c is not None and c in self.pool_classes:
+            return True
+        if c is None and f.qual in self.spliced:
+            # a module-level helper that only ever runs spliced into pool methods
+            _seen = _seen or set()
+            if f.qual in _seen:
+                return False
+            _seen.add(f.qual)
+            cs = self.callers(f)
+            return bool(cs) and all(self.in_pool(g, _seen) for g, _ in cs)
+        return False
 
     def pool_functions(self) -> List[FuncInfo]:
         return [f for f in self.prog.all_functions() if self.in_pool(f)]
@@ -80,16 +97,21 @@ class Ctx:
         cg = self.__dict__.get("_callers")
         if cg is None:
             cg = {}
+            seen_steps = set()
             for g in self.prog.all_functions():
                 for n in self.nodes(g, lambda n: n.op in ("call", "enter", "exit_ctx")):
                     cal = n.callee
+                    # a step of a spliced helper is attributed to the helper itself, once
+                    if (id(n.ast), n.op) in seen_steps:
+                        continue
+                    seen_steps.add((id(n.ast), n.op))
                     if cal is not None and cal.kind == "pkg":
                         for t in cal.targets:
-                            cg.setdefault(t.qual, []).append((g, n))
+                            cg.setdefault(t.qual, []).append((n.func, n))
                     elif cal is not None and cal.kind == "ctor" and cal.cls is not None:
                         init = self.prog.lookup(cal.cls, "__init__")
                         if init is not None:
-                            cg.setdefault(init.qual, []).append((g, n))
+                            cg.setdefault(init.qual, []).append((n.func, n))
             self._callers = cg
         return cg.get(f.qual, [])
 
@@ -215,8 +237,25 @@ class Ctx:
         cache[key] = out
         return out
 
+    def path_at(self, n: Node, e: Optional[ast.AST]) -> Optional[str]:
+        """Access path of expression e evaluated at step n (in the caller's terms when n lies in a spliced helper)."""
+        p = self.eff.paths(n.func).of(e)
+        return self.eff.rebase(p, n.func, n.env) if p is not None else None
+
+    def owner(self, node: ast.AST) -> Optional[FuncInfo]:
+        """The function whose own body contains this AST node."""
+        if self._owner is None:
+            self._owner = {}
+            from .values import _own_nodes
+
+            for fn in self.prog.functions.values():
+                for n in _own_nodes(fn.node):
+                    self._owner[id(n)] = fn
+        return self._owner.get(id(node))
+
     def call_arg(self, call: ast.Call, f: FuncInfo, param: str) -> Optional[ast.expr]:
-        """The argument expression bound to `param` of callee f (None if defaulted / not determinable)."""
+        """The argument expression bound to `param` of callee f (None if defaulted / not determinable).
+        `**name` is expanded when name is a never-mutated local dict display with constant keys."""
         names = f.param_names()
         a = f.node.args
         pos = [p.arg for p in a.posonlyargs + a.args]
@@ -230,6 +269,12 @@ class Ctx:
         for kw in call.keywords:
             if kw.arg == param:
                 return kw.value
+        for kw in call.keywords:
+            if kw.arg is None:
+                caller = self.owner(call)
+                d = self.vals.dict_literal(caller, kw.value) if caller is not None else None
+                if d is not None and param in d:
+                    return d[param]
         return None
 
     # ------------------------------------------------------------------ lemmas
